@@ -5,7 +5,8 @@
  *    become living (enable_commands + set_living_name) | set_heart_beat + call_out | command "v" | tick | cleanup}
  * over a population of <= 4 objects (blueprints a, b; two clones of a), from four initial worlds, with budgeted
  * deviations decided at the entry of every hook (create / init / move_or_destruct / verb function):
- *   the hook's script {error(), move(any -> any), destruct(any), load a|b, clone, become living, verb returns 1}
+ *   the hook's script {error(), move(any -> any), destruct(any), load a|b, clone, become living, any object calls
+ *   set_heart_beat(1), verb returns 1}
  * The real src/simulate.c, lib/lpc/otable.c, lib/lpc/object.c, src/backend.c, lib/efuns/{inventory,command,call_out}.c.
  * After EVERY step: an invariant walker over the driver's own structures + an abstract world model (driven by the
  * ops and by the begin/end records the LPC side writes) compared with the driver structures and with the answers of
@@ -61,6 +62,7 @@ static int build_scripts (int kind, int self, script *v) {
   v[n++] = (script) { 4, 0, 0, 0 }; v[n++] = (script) { 4, 1, 0, 0 };                     /* load a, load b */
   v[n++] = (script) { 5, 0, 0, 0 };                                                    /* clone a */
   v[n++] = (script) { 6, 0, 0, 0 };                                                    /* become living */
+  for (int a = 0; a < NOBJ; a++) v[n++] = (script) { 9, a, 0, 0 };                        /* a (the object being destructed, self, another) calls set_heart_beat(1) */
   if (kind == 4) { v[n++] = (script) { 0, 0, 0, 1 }; v[n++] = (script) { 3, self, 0, 1 }; }   /* verb returns 1 (also after destructing itself) */
   return n;
 }
@@ -114,10 +116,11 @@ static void hook (void) {
   if (s->op == 3 && !really_live (s->a)) vx_child_exit (0);
   if (s->op == 5 && nclone >= 2) vx_child_exit (0);
   if (s->op == 6 && (ob->flags & O_ENABLE_COMMANDS)) vx_child_exit (0);
+  if (s->op == 9 && (!really_live (s->a) || (OB[s->a]->flags & O_HEART_BEAT))) vx_child_exit (0);
   ob->variables[0].u.number = s->op | s->a << 8 | s->b << 16 | s->ret << 24;
   scripts_run++; if (s->op == 1) fails_run++;
   vx_count (C_SCRIPTS, 1);
-  static const char *opn[] = { "return 1", "error()", "move", "destruct", "load", "clone", "become living" };
+  static const char *opn[] = { "return 1", "error()", "move", "destruct", "load", "clone", "become living", "?", "?", "set_heart_beat(1) in a" };
   vx_obs ("  [script in %s of O%d: %s a=O%d b=O%d%s]", kn[kind], self, opn[s->op], s->a, s->b, s->ret ? " ret 1" : "");
 }
 
@@ -225,6 +228,7 @@ static void process_log (int op_failed) {
       if (!live (id)) fail_hist ("C08:model-desync", "%s record from O%d which the model has as not live (%d)", w->u.string, id, M[id].st);
       if (w->u.string[0] == 'c' && live (id)) M[id].co = 0;
     } else if (str_eq (w, "living")) { if (live (id)) { M[id].living = 1; M[id].lname = (id & 1) ? 2 : 1; } vx_obs ("  O%d becomes living \"%s\"", id, e->item[2].u.string); }
+    else if (str_eq (w, "hb-on")) { int a = (int) num (e, 2); vx_obs ("  O%d calls set_heart_beat(1) (made to by O%d)", a, id); if (live (a)) M[a].hb = 1; }
     else if (str_eq (w, "timers")) { if (live (id)) { M[id].hb = 1; M[id].co = 1; } }
     else if (str_eq (w, "fail")) vx_obs ("  scripted error() in O%d", id);
     else if (str_eq (w, "nop")) vx_obs ("  (script target gone, no-op)");
